@@ -22,15 +22,16 @@ from tornado import iostream
 from tornado.ioloop import IOLoop
 
 from harness._iostream_rig import BA, FD, MV, FakeFdStream, Kernel, conc, fire, registered
-from harness.C11 import DATA, DELIMS, END, REGEXES, RB, RBP, RC, RI, RIP, RU, RX, _issue, _satisfiable
+from harness.C11 import (DATA, DELIMS, END, KEY_AFTER_FAILED, REGEXES, RB, RBP, RC, RI, RIP, RU, RX, _TRACK,
+                         _classify, _issue, _satisfiable)
 
 PAT = bytes(range(65, 91))
 LOCAL, EOF, RESET, EIO, WERR, ERREV = range(6)
 
 
-def pre_close(cause: int, rk: int, rn: int, rm: int, b0: int, nw: int, wa: int, cb: bool, conn: bool,
-              rscript: List[int], tail: int, later: int) -> bool:
-    if not (0 <= cause <= 5 and -1 <= rk <= 6 and 0 <= b0 <= P.B0 and 0 <= nw <= 2 and -1 <= wa <= 2):
+def pre_close(cause: int, rk: int, rn: int, rm: int, b0: int, cb: bool, rscript: List[int], tail: int,
+              later: int) -> bool:
+    if not (0 <= cause <= 5 and cause != WERR and 0 <= rk <= 6 and 0 <= b0 <= P.B0):
         return False
     if rk == -1 or rk == RC:
         if not (rn == 0 and rm == -1):
@@ -39,45 +40,79 @@ def pre_close(cause: int, rk: int, rn: int, rm: int, b0: int, nw: int, wa: int, 
         if not (0 <= rn <= P.NB and rm == -1):
             return False
     else:
-        if not (0 <= rn <= 1 and -1 <= rm <= P.MB):
+        if not (0 <= rn <= 2 and -1 <= rm <= P.MB):
             return False
-    if len(rscript) > P.K or not (0 <= tail <= P.T and 0 <= later <= 3):
+    if len(rscript) > P.K or not (0 <= tail <= P.T and 1 <= later <= 2):
         return False
     for a in rscript:
         if not 0 <= a <= 2:
             return False
-    if conn and cause == WERR:
-        return False
-    return in_shard(cause + 6 * (rk + 1))
+    return in_shard((cause if cause < WERR else 4) + 5 * rk)
+
+
+_C_UNITS = ["iostream.BaseIOStream.close", "iostream.BaseIOStream._signal_closed",
+            "iostream.BaseIOStream._handle_events", "iostream.BaseIOStream._handle_read",
+            "iostream.BaseIOStream._read_to_buffer", "iostream.BaseIOStream._try_inline_read",
+            "iostream.BaseIOStream._start_read", "iostream.BaseIOStream._handle_write",
+            "iostream.BaseIOStream.write", "iostream.BaseIOStream.set_close_callback",
+            "iostream.BaseIOStream._maybe_add_error_listener", "iostream.BaseIOStream._check_closed"]
+_C_STUBS = ["FakeFdStream scripted kernel (harness/_iostream_rig.py); right after the scripted arrivals (last one = "
+            "`tail` bytes) the peer ends with the symbolic cause (EOF / ECONNRESET / EIO); write_to_fd call #1 "
+            "raises EPIPE for the write-error cause; ERROR event delivers get_fd_error()=ECONNREFUSED",
+            "VLoop/FakeAio virtual loop (vp/env.py); readiness delivered by calling the registered handler",
+            "connect-pending state set by FakeFdStream.fake_connect (mirrors IOStream.connect's state changes; "
+            "BaseIOStream has no connect)",
+            "stream content concrete (C11's 18-byte DATA), positions / sizes / parameters symbolic",
+            "pre-state: 1 byte consumed, b0 bytes buffered, built through the real API"]
 
 
 @harness(
     pre=pre_close,
-    quick=dict(B0=2, NB=3, MB=3, K=1, T=2, timeout=100, reach_timeout=60),
-    thorough=dict(B0=3, NB=4, MB=4, K=2, T=3, timeout=1500, reach_timeout=120),
-    nshards=dict(quick=48, thorough=48),
-    reach=["read_completed_at_close", "read_failed_real_error", "write_failed", "connect_failed",
-           "unsatisfiable", "callback_ran", "later_read_from_buffer", "inline_error_raised"],
-    units=["iostream.BaseIOStream.close", "iostream.BaseIOStream._signal_closed",
-           "iostream.BaseIOStream._handle_events", "iostream.BaseIOStream._handle_read",
-           "iostream.BaseIOStream._read_to_buffer", "iostream.BaseIOStream._try_inline_read",
-           "iostream.BaseIOStream._start_read", "iostream.BaseIOStream._handle_write",
-           "iostream.BaseIOStream.write", "iostream.BaseIOStream.set_close_callback",
-           "iostream.BaseIOStream._maybe_add_error_listener", "iostream.BaseIOStream._check_closed"],
-    stubs=["FakeFdStream scripted kernel (harness/_iostream_rig.py); after the scripted arrivals and `tail` more "
-           "bytes the peer ends with the symbolic cause (EOF / ECONNRESET / EIO); write_to_fd call #1 raises EPIPE "
-           "for the write-error cause; ERROR event delivers get_fd_error()=ECONNREFUSED",
-           "VLoop/FakeAio virtual loop (vp/env.py); readiness delivered by calling the registered handler",
-           "connect-pending state set by FakeFdStream.fake_connect (mirrors IOStream.connect's state changes; "
-           "BaseIOStream has no connect)",
-           "stream content concrete (C11's 18-byte DATA), positions / sizes / parameters symbolic"],
-    outside=["more than one pending read (the API forbids it), more than 2 pending writes", "SSL handshake futures",
+    quick=dict(B0=1, NB=2, MB=3, K=1, T=1, timeout=100, reach_timeout=60),
+    thorough=dict(B0=3, NB=4, MB=4, K=2, T=2, timeout=1500, reach_timeout=120),
+    nshards=dict(quick=35, thorough=35),
+    classify=lambda **a: _classify(h_close_read, a),
+    reach=["read_completed_at_close", "read_failed_real_error", "unsatisfiable", "callback_ran",
+           "later_read_from_buffer", "inline_error_raised"],
+    units=_C_UNITS, stubs=_C_STUBS,
+    outside=["more than one pending read (the API forbids it)", "SSL handshake futures",
              "an 'other' OSError met inline while *issuing* a read is re-raised to the caller by read_*() (the "
              "future it would have returned is failed with StreamClosedError first): accepted as settled",
              "close callbacks that raise", "cancelled futures"],
 )
-def h_close(cause: int, rk: int, rn: int, rm: int, b0: int, nw: int, wa: int, cb: bool, conn: bool,
-            rscript: List[int], tail: int, later: int):
+def h_close_read(cause: int, rk: int, rn: int, rm: int, b0: int, cb: bool, rscript: List[int], tail: int,
+                 later: int):
+    """A pending (or inline) read of any kind meets the close cause at a symbolic point of the arrivals."""
+    _close_body(cause, rk, rn, rm, b0, 0, -1, cb, False, rscript, tail, later)
+
+
+def pre_cw(cause: int, nw: int, wa: int, cb: bool, conn: bool, pend: bool, tail: int) -> bool:
+    if not (0 <= cause <= 5 and 0 <= nw <= 2 and -1 <= wa <= 2 and 0 <= tail <= 1):
+        return False
+    if conn and cause == WERR:
+        return False
+    return in_shard(cause)
+
+
+@harness(
+    pre=pre_cw,
+    quick=dict(K=1, timeout=100, reach_timeout=60),
+    thorough=dict(K=1, timeout=1500, reach_timeout=120),
+    nshards=dict(quick=6, thorough=6),
+    reach=["write_failed", "connect_failed", "callback_ran", "read_failed_real_error"],
+    classify=lambda **a: _classify(h_close_write, a),
+    units=_C_UNITS, stubs=_C_STUBS,
+    outside=["more than 2 pending writes", "SSL handshake futures", "close callbacks that raise", "cancelled futures"],
+)
+def h_close_write(cause: int, nw: int, wa: int, cb: bool, conn: bool, pend: bool, tail: int):
+    """0-2 partly sent writes, optional connect-pending, optional pending read_bytes(3) meet the close cause."""
+    if pend:
+        _close_body(cause, RB, 3, -1, 0, nw, wa, cb, conn, [], tail, 1)
+    else:
+        _close_body(cause, -1, 0, -1, 0, nw, wa, cb, conn, [], tail, 1)
+
+
+def _close_body(cause, rk, rn, rm, b0, nw, wa, cb, conn, rscript, tail, later):
     with install() as env:
         cause = conc(cause, 0, 5)
         rk = conc(rk, -1, 6)
@@ -247,7 +282,9 @@ def h_close(cause: int, rk: int, rn: int, rm: int, b0: int, nw: int, wa: int, cb
             wrote = False
             assert e.real_error is want_err
         assert not wrote and len(k.sent) == sent, "write succeeded after close"
-        if inline_exc is None:
+        read_failed = "read" in futs and futs["read"].exception() is not None
+        _TRACK["after_failed"] = read_failed
+        if inline_exc is None and not (read_failed and KEY_AFTER_FAILED in P.exclude):
             calls = k.read_calls
             n2 = conc(later, 0, 3)
             avail = D - rpos
